@@ -161,6 +161,35 @@ static int check_inv(ssl_t *s, int rc, int fed)
     return 1;
 }
 
+/* ------------------------------------------------------------------ stack painting (differential for uninitialised reads)
+   C08_PAINT=<hex byte> in the environment: the unused stack below the current frame is filled with that byte before
+   every API call and - through link-time wrappers of functions the parsers call between their own sub-parsers
+   (psParseBufFromStaticData, psParseTlsVariableLengthVec, psParseBufCopyN, sslUpdateHSHash, tls13TranscriptHashUpdate) -
+   in the middle of a call, so that a local the library forgot to initialise holds the paint instead of what an earlier
+   callee left there.  The same case run with two paints must give the same observables.  (Heap: ASAN_OPTIONS
+   malloc_fill_byte, set by the check.)  In this mode `x` results carry every observable:
+   " err=<ssl->err> out=<n>:<fnv of bytes sent + queued> pt=<n>:<fnv of delivered plaintext> sni=<hex> alpn=<hex>" */
+static int g_paint = -1;
+static uint32_t g_obs_out = 2166136261u, g_obs_pt = 2166136261u; static long g_obs_outn, g_obs_ptn;
+static void obs_mix(uint32_t *h, const unsigned char *b, size_t l) { for (size_t i = 0; i < l; i++) { *h ^= b[i]; *h *= 16777619u; } }
+static __attribute__((noinline)) void poison_stack(int byte)
+{
+    volatile unsigned char pad[56 * 1024];
+    memset((void *) pad, byte, sizeof pad);
+    __asm__ __volatile__("" : : "r"(pad) : "memory");
+}
+#define PAINT() do { if (g_paint >= 0) poison_stack(g_paint); } while (0)
+int32_t __real_psParseBufFromStaticData(psParseBuf_t *pb, const void *data, size_t len);
+int32_t __wrap_psParseBufFromStaticData(psParseBuf_t *pb, const void *data, size_t len) { PAINT(); return __real_psParseBufFromStaticData(pb, data, len); }
+int __real_psParseTlsVariableLengthVec(const unsigned char *start, const unsigned char *end, psSizeL_t minLen, psSizeL_t maxLen, psSizeL_t *vecDataLen);
+int __wrap_psParseTlsVariableLengthVec(const unsigned char *start, const unsigned char *end, psSizeL_t minLen, psSizeL_t maxLen, psSizeL_t *vecDataLen)
+{ PAINT(); return __real_psParseTlsVariableLengthVec(start, end, minLen, maxLen, vecDataLen); }
+int32_t __real_psParseBufCopyN(const psParseBuf_t *pb, size_t reqLen, unsigned char *target, size_t *targetlen);
+int32_t __wrap_psParseBufCopyN(const psParseBuf_t *pb, size_t reqLen, unsigned char *target, size_t *targetlen)
+{ PAINT(); return __real_psParseBufCopyN(pb, reqLen, target, targetlen); }
+int32_t __real_tls13TranscriptHashUpdate(ssl_t *ssl, const unsigned char *in, psSize_t len);
+int32_t __wrap_tls13TranscriptHashUpdate(ssl_t *ssl, const unsigned char *in, psSize_t len) { PAINT(); return __real_tls13TranscriptHashUpdate(ssl, in, len); }
+
 /* drain the output of a peer; DTLS through matrixDtlsGetOutdata. sink: called per chunk (may be NULL) */
 typedef void (*sink_t)(peer_t *from, const unsigned char *b, int n);
 static int drain_out(peer_t *p, sink_t sink, int force)
@@ -168,12 +197,15 @@ static int drain_out(peer_t *p, sink_t sink, int force)
     int total = 0; unsigned char *buf; int32 n;
     if (!p->ssl) return 0;
     for (int guard = 0; guard < 64; guard++) {
+        PAINT();
         if (g_cfg->dtls) {
             if (p->ssl->outlen <= 0 && !force) break;
             n = matrixDtlsGetOutdata(p->ssl, &buf); force = 0;
         } else n = matrixSslGetOutdata(p->ssl, &buf);
         if (n <= 0) break;
         if (sink) sink(p, buf, n);
+        else { obs_mix(&g_obs_out, buf, (size_t) n); g_obs_outn += n; }
+        PAINT();
         total += n;
         int32 rc = g_cfg->dtls ? matrixDtlsSentData(p->ssl, (uint32) n) : matrixSslSentData(p->ssl, (uint32) n);
         if (rc == MATRIXSSL_REQUEST_CLOSE || rc < 0) break;
@@ -199,12 +231,14 @@ static int feed_api(peer_t *p, const unsigned char *d, int l, int exact)
         if (room < l) { if (g_nrc < MAXRC) g_rcs[g_nrc++] = -2000; return -2000; }
     }
     memcpy(rb, d, l);
+    PAINT();
     rc = matrixSslReceivedData(s, (uint32) l, &pt, &ptlen);
     if (g_nrc < MAXRC) g_rcs[g_nrc++] = rc;
     if (!check_inv(s, rc, l > 0)) return rc;
     for (int guard = 0; guard < 4096; guard++) {
         if (rc == MATRIXSSL_APP_DATA || rc == MATRIXSSL_APP_DATA_COMPRESSED || rc == MATRIXSSL_RECEIVED_ALERT) {
-            if (pt && ptlen) { volatile unsigned char acc = 0; for (uint32 i = 0; i < ptlen; i++) acc ^= pt[i]; (void) acc; }  /* the application reads what it was given */
+            if (pt && ptlen) { obs_mix(&g_obs_pt, pt, ptlen); g_obs_ptn += ptlen; }    /* the application reads what it was given */
+            PAINT();
             rc = matrixSslProcessedData(s, &pt, &ptlen);
             if (g_nrc < MAXRC) g_rcs[g_nrc++] = rc;
             if (!check_inv(s, rc, 0) ) return rc;
@@ -316,18 +350,12 @@ static void emit(const char *s) { fputs(s, g_out); fputc('\n', g_out); fflush(g_
 static void outhex(const unsigned char *b, size_t l) { if (l == 0) { fputs("-", g_out); return; } for (size_t i = 0; i < l; i++) fprintf(g_out, "%02x", b[i]); }
 
 /* body of the child for an x case */
-static __attribute__((noinline)) void poison_stack(int byte)
-{
-    volatile unsigned char pad[48 * 1024];
-    memset((void *) pad, byte, sizeof pad);
-    __asm__ __volatile__("" : : "r"(pad) : "memory");
-}
-
 static void child_x(int to, const char *flags, char **hex, int nhex)
 {
-    peer_t *p = peer_of(to); char line[512];
+    peer_t *p = peer_of(to); char line[1024];
     int exact = strchr(flags, 'e') != NULL, nullc = strchr(flags, 'n') != NULL, out = strchr(flags, 'o') != NULL, tmo = strchr(flags, 't') != NULL;
     g_nrc = 0; g_ncall = 0; g_verdict[0] = 0;
+    g_obs_out = g_obs_pt = 2166136261u; g_obs_outn = g_obs_ptn = 0;
     alarm(5);
     if (nullc) { p->ssl->decrypt = shim_null; p->ssl->verifyMac = shim_mac_ok; }
     for (int i = 0; i < nhex && !g_verdict[0]; i++) {
@@ -344,7 +372,14 @@ static void child_x(int to, const char *flags, char **hex, int nhex)
     for (int i = 0; i < g_nrc; i++) n += snprintf(line + n, sizeof line - n, "%s%d", i ? "," : "", g_rcs[i]);
     snprintf(line + n, sizeof line - n, " hs=%d fl=%s%s in=%d/%d", (int) p->ssl->hsState, (p->ssl->flags & SSL_FLAGS_ERROR) ? "E" : "",
              (p->ssl->flags & SSL_FLAGS_CLOSED) ? "C" : "", (int) p->ssl->inlen, (int) p->ssl->insize);
-    if (strchr(flags, 's')) {
+    if (g_paint >= 0) {
+        ssl_t *q = p->ssl; n = (int) strlen(line);
+        if (q->outlen > 0 && q->outbuf) { obs_mix(&g_obs_out, q->outbuf, (size_t) q->outlen); g_obs_outn += q->outlen; }
+        n += snprintf(line + n, sizeof line - n, " err=%d out=%ld:%08x pt=%ld:%08x alpn=", (int) q->err, g_obs_outn, g_obs_out, g_obs_ptn, g_obs_pt);
+        if (!q->alpn || q->alpnLen <= 0) n += snprintf(line + n, sizeof line - n, "-");
+        else for (int i = 0; i < q->alpnLen && i < 32; i++) n += snprintf(line + n, sizeof line - n, "%02x", (unsigned char) q->alpn[i]);
+    }
+    if (strchr(flags, 's') || g_paint >= 0) {
         n = (int) strlen(line); n += snprintf(line + n, sizeof line - n, " sni=");
         if (!p->ssl->expectedName) n += snprintf(line + n, sizeof line - n, "-");
         else for (int i = 0; i < 64 && p->ssl->expectedName[i]; i++) n += snprintf(line + n, sizeof line - n, "%02x", (unsigned char) p->ssl->expectedName[i]);
@@ -443,6 +478,7 @@ static char g_hlog[2048]; static int g_hlogn, g_hlog_on;
 int32_t __real_sslUpdateHSHash(ssl_t *ssl, const unsigned char *in, psSize_t len);
 int32_t __wrap_sslUpdateHSHash(ssl_t *ssl, const unsigned char *in, psSize_t len)
 {
+    PAINT();
     if (g_hlog_on && ssl == g_ussl && g_hlogn < (int) sizeof g_hlog - 64) {
         if (ssl->fragMessage && in >= ssl->fragMessage && in <= ssl->fragMessage + ssl->fragLenStored && (ACTV_VER(ssl, v_dtls_any)))
             g_hlogn += snprintf(g_hlog + g_hlogn, sizeof g_hlog - g_hlogn, " F%d:%d:%08x", (int) (in - ssl->fragMessage), (int) len, fnv32(in, len));
@@ -657,6 +693,7 @@ int main(void)
     { int nul = open("/dev/null", O_WRONLY); if (nul >= 0) { dup2(nul, 1); close(nul); } }
     if (matrixSslOpen() < 0) { emit("INITFAIL"); return 2; }
     g_default_pmtu = matrixDtlsGetPmtu();
+    if (getenv("C08_PAINT")) g_paint = (int) strtol(getenv("C08_PAINT"), NULL, 16) & 0xff;
     g_quiet = 1;
     while (next_case()) {
         if (g_ntok >= 2 && !strcmp(g_tok[0], "cap")) op_cap(g_tok[1]);
